@@ -230,6 +230,9 @@ func main() {
 			res.Violate("C08/roundtrip-iface", fmt.Sprint("decode(encode(t)) != t: ", err), hex.EncodeToString(enc))
 		}
 		add(enc)
+		for _, nc := range nonCanonical(enc) {
+			add(nc)
+		}
 		if len(enc) < 300 {
 			// mutate header-ish bytes: first 12 positions, every interesting value
 			for p := 0; p < len(enc) && p < 6; p++ {
@@ -322,6 +325,16 @@ func main() {
 			sob = fmt.Sprintf("SErr %d", errCode(serr))
 		} else {
 			sob = fmt.Sprintf("SOk %d %s %s", int(k), hx.CoqHex(content), hx.CoqHex(rest))
+			// direct property: what Split accepts is the canonical encoding of (kind, content)
+			var re []byte
+			if k == rlp.List {
+				re = append(listHeader(len(content)), content...)
+			} else {
+				re, _ = rlp.EncodeToBytes(content)
+			}
+			if !bytes.Equal(append(re, rest...), b) {
+				res.Violate("C08/canonical-split", "Split accepted a non-canonical header", map[string]string{"in": hex.EncodeToString(b), "canonical": hex.EncodeToString(re)})
+			}
 		}
 		cnt, cerr := rlp.CountValues(b)
 		cob := ""
@@ -400,6 +413,68 @@ func main() {
 	cs.Close()
 	res.ModelCases = cs.Total()
 	res.Write(a.Out)
+}
+
+// nonCanonical rewrites the outermost header of a valid encoding into the non-canonical forms a
+// sloppy decoder would accept: long form for a short size, size with leading zero byte(s),
+// 0x81-prefixed small byte.
+func nonCanonical(enc []byte) [][]byte {
+	var out [][]byte
+	if len(enc) == 0 {
+		return out
+	}
+	b := enc[0]
+	be := func(n, width int) []byte {
+		o := make([]byte, width)
+		for i := width - 1; i >= 0; i-- {
+			o[i] = byte(n)
+			n >>= 8
+		}
+		return o
+	}
+	switch {
+	case b < 0x80:
+		out = append(out, append([]byte{0x81}, enc...))
+		out = append(out, append([]byte{0xb8, 0x01}, enc...))
+	case b < 0xb8:
+		n := int(b - 0x80)
+		out = append(out, append(append([]byte{0xb8}, be(n, 1)...), enc[1:]...))
+		out = append(out, append(append([]byte{0xb9}, be(n, 2)...), enc[1:]...))
+	case b < 0xc0:
+		w := int(b - 0xb7)
+		if 1+w <= len(enc) && w < 8 {
+			n := 0
+			for _, x := range enc[1 : 1+w] {
+				n = n<<8 | int(x)
+			}
+			out = append(out, append(append([]byte{b + 1}, be(n, w+1)...), enc[1+w:]...))
+		}
+	case b < 0xf8:
+		n := int(b - 0xc0)
+		out = append(out, append(append([]byte{0xf8}, be(n, 1)...), enc[1:]...))
+		out = append(out, append(append([]byte{0xf9}, be(n, 2)...), enc[1:]...))
+	default:
+		w := int(b - 0xf7)
+		if 1+w <= len(enc) && w < 8 {
+			n := 0
+			for _, x := range enc[1 : 1+w] {
+				n = n<<8 | int(x)
+			}
+			out = append(out, append(append([]byte{b + 1}, be(n, w+1)...), enc[1+w:]...))
+		}
+	}
+	return out
+}
+
+func listHeader(n int) []byte {
+	if n < 56 {
+		return []byte{0xc0 + byte(n)}
+	}
+	var sz []byte
+	for x := n; x > 0; x >>= 8 {
+		sz = append([]byte{byte(x)}, sz...)
+	}
+	return append([]byte{0xf7 + byte(len(sz))}, sz...)
 }
 
 func eqVal(a, b interface{}) bool {
